@@ -210,3 +210,53 @@ def marked_reach(g: CFG, mark_edges, reset_nodes, target: Node) -> Optional[List
                 prev[nxt] = st
                 queue.append(nxt)
     return None
+
+
+# ---------------------------------------------------------------------------------------------------------------------
+_INV = {ast.Eq: ast.NotEq, ast.NotEq: ast.Eq, ast.Gt: ast.LtE, ast.LtE: ast.Gt, ast.GtE: ast.Lt, ast.Lt: ast.GtE, ast.Is: ast.IsNot, ast.IsNot: ast.Is,
+        ast.In: ast.NotIn, ast.NotIn: ast.In}
+
+
+def test_node_of(g: CFG, expr):
+    """The CFG test node that evaluates the source expression `expr` (an atom of a condition), and the label of the edge taken when
+    `expr` as written is true.  -> (node, label) or (None, None)"""
+    for n in g.stmt_nodes():
+        if n.kind != 'test':
+            continue
+        if n.ast is expr:
+            return n, 'T'
+        if getattr(n.ast, '_orig', None) is expr:
+            return n, 'F'
+        # `not X` written in the source: the node holds X
+        if isinstance(expr, ast.UnaryOp) and isinstance(expr.op, ast.Not):
+            m, lab = test_node_of(g, expr.operand)
+            if m is not None:
+                return m, ('F' if lab == 'T' else 'T')
+    return None, None
+
+
+def views(t: Node, lab: str):
+    """Both polarities of an atomic guard: CFG tests are canonical (positive operators, no leading `not`), a rule may think of the guard
+    the way the source wrote it.  (x in y, 'F') is also (x not in y, 'T'); (c, 'F') is also (not c, 'T')."""
+    out = [(t.ast, lab)]
+    if t.kind != 'test' or lab not in ('T', 'F'):
+        return out
+    other = 'F' if lab == 'T' else 'T'
+    e = t.ast
+    if isinstance(e, ast.Compare) and len(e.ops) == 1 and type(e.ops[0]) in _INV:
+        new = ast.Compare(left=e.left, ops=[_INV[type(e.ops[0])]()], comparators=e.comparators)
+        out.append((ast.copy_location(new, e), other))
+    else:
+        out.append((ast.copy_location(ast.UnaryOp(op=ast.Not(), operand=e), e), other))
+    return out
+
+
+def guard_views(g: CFG, target: Node, edge_ok=None):
+    """[(test node, expression, text, label)] for every guard of target in both polarities"""
+    out = []
+    for t, lab in guards_of(g, target, edge_ok=edge_ok):
+        if t.kind != 'test':
+            continue
+        for e, l in views(t, lab):
+            out.append((t, e, unparse(e), l))
+    return out
